@@ -146,6 +146,11 @@ def plan(prop):
         for n, m, ntt in (((4, None, 4), (4, 4, 4), (4, 1, 4), (4, 3, 4), (4, 5, 4), (4, 4, 3)) if Q else
                           ((4, None, 4), (4, 4, 4), (4, 1, 4), (4, 3, 4), (4, 5, 4), (4, 4, 3), (9, 9, 9), (9, 8, 9), (1, 1, 1), (1, 0, 1), (4, 4, 1), (9, 9, 8))):
             obs.append(('vrp-pragmatic', lambda ctx, n=n, m=m, ntt=ntt: po.ob_pragmatic_matrix(ctx, n, m, ntt)))
+    if prop == 'C14':
+        for groups in (((1,), (2,), (2, 1)) if Q else ((1,), (2,), (2, 1), (3,), (2, 2), (1, 1, 1))):
+            obs.append((core, lambda ctx, g=groups: co.ob_registry_step(ctx, g)))
+        for groups in (((1,), (2,), (2, 1)) if Q else ((1,), (2,), (2, 1), (3,), (2, 2))):
+            obs.append((core, lambda ctx, g=groups: co.ob_registry_ctx_step(ctx, g)))
     if prop == 'C12':
         import pragmatic_obligations as po
         prag = 'vrp-pragmatic'
